@@ -381,7 +381,7 @@ theorem gateSTE_exact (ch ch' th : ℚ) (h : ch ≤ ch') :
     Gen.diana_latency.GateSTE.forward.val ch th ≤ Gen.diana_latency.GateSTE.forward.val ch' th := by
   simp only [diana_GateSTE_eq]; exact ⟨rfl, gate_mono h⟩
 
-/-! ## 4. Depthwise = generic per group (size and operation counts) -/
+/-! ## 4. Depthwise = generic per group (size and operation counts); grouped = groups × per group -/
 
 /-- `params`: depthwise = `groups` × generic on one group (1-D and 2-D) -/
 theorem params_dw_eq_generic_per_group (s : S) (hd : IsDw s) :
@@ -390,7 +390,7 @@ theorem params_dw_eq_generic_per_group (s : S) (hd : IsDw s) :
   obtain ⟨e1, e2⟩ := perGroup_channels hd
   rw [paramsConv1dDw_eq, paramsConv1d_eq, paramsConv2dDw_eq, paramsConv2d_eq]
   simp only [paramsConv1d, paramsConv1dDw, paramsConv2d, paramsConv2dDw, e1, e2, k_perGroup, o_perGroup, bias_perGroup,
-    perGroup_w, perGroup_ip, hd.1, hd.2.1]
+    perGroup_w, perGroup_ip, perGroup_g, hd.1, hd.2.1]
   constructor <;> ring
 /-- `params_no_bias`: depthwise = `groups` × generic on one group (1-D and 2-D) -/
 theorem params_no_bias_dw_eq_generic_per_group (s : S) (hd : IsDw s) :
@@ -399,7 +399,7 @@ theorem params_no_bias_dw_eq_generic_per_group (s : S) (hd : IsDw s) :
   obtain ⟨e1, e2⟩ := perGroup_channels hd
   rw [paramsNbConv1dDw_eq, paramsNbConv1d_eq, paramsNbConv2dDw_eq, paramsNbConv2d_eq]
   simp only [paramsNbConv1d, paramsNbConv1dDw, paramsNbConv2d, paramsNbConv2dDw, e1, e2, k_perGroup, o_perGroup, bias_perGroup,
-    perGroup_w, perGroup_ip, hd.1, hd.2.1]
+    perGroup_w, perGroup_ip, perGroup_g, hd.1, hd.2.1]
   constructor <;> ring
 /-- `params_bit`: depthwise = `groups` × generic on one group (1-D and 2-D) -/
 theorem params_bit_dw_eq_generic_per_group (s : S) (hd : IsDw s) :
@@ -408,7 +408,7 @@ theorem params_bit_dw_eq_generic_per_group (s : S) (hd : IsDw s) :
   obtain ⟨e1, e2⟩ := perGroup_channels hd
   rw [paramsBitConv1dDw_eq, paramsBitConv1d_eq, paramsBitConv2dDw_eq, paramsBitConv2d_eq]
   simp only [paramsBitConv1d, paramsBitConv1dDw, paramsBitConv2d, paramsBitConv2dDw, e1, e2, k_perGroup, o_perGroup, bias_perGroup,
-    perGroup_w, perGroup_ip, hd.1, hd.2.1]
+    perGroup_w, perGroup_ip, perGroup_g, hd.1, hd.2.1]
   constructor <;> ring
 /-- `ops`: depthwise = `groups` × generic on one group (1-D and 2-D) -/
 theorem ops_dw_eq_generic_per_group (s : S) (hd : IsDw s) :
@@ -417,7 +417,7 @@ theorem ops_dw_eq_generic_per_group (s : S) (hd : IsDw s) :
   obtain ⟨e1, e2⟩ := perGroup_channels hd
   rw [opsConv1dDw_eq, opsConv1d_eq, opsConv2dDw_eq, opsConv2d_eq]
   simp only [opsConv1d, opsConv1dDw, opsConv2d, opsConv2dDw, paramsConv1d, paramsConv1dDw, paramsConv2d, paramsConv2dDw, e1, e2, k_perGroup, o_perGroup, bias_perGroup,
-    perGroup_w, perGroup_ip, hd.1, hd.2.1]
+    perGroup_w, perGroup_ip, perGroup_g, hd.1, hd.2.1]
   constructor <;> ring
 /-- `ops_no_bias`: depthwise = `groups` × generic on one group (1-D and 2-D) -/
 theorem ops_no_bias_dw_eq_generic_per_group (s : S) (hd : IsDw s) :
@@ -426,7 +426,7 @@ theorem ops_no_bias_dw_eq_generic_per_group (s : S) (hd : IsDw s) :
   obtain ⟨e1, e2⟩ := perGroup_channels hd
   rw [opsNbConv1dDw_eq, opsNbConv1d_eq, opsNbConv2dDw_eq, opsNbConv2d_eq]
   simp only [opsNbConv1d, opsNbConv1dDw, opsNbConv2d, opsNbConv2dDw, paramsNbConv1d, paramsNbConv1dDw, paramsNbConv2d, paramsNbConv2dDw, e1, e2, k_perGroup, o_perGroup, bias_perGroup,
-    perGroup_w, perGroup_ip, hd.1, hd.2.1]
+    perGroup_w, perGroup_ip, perGroup_g, hd.1, hd.2.1]
   constructor <;> ring
 /-- `ops_bit`: depthwise = `groups` × generic on one group (1-D and 2-D) -/
 theorem ops_bit_dw_eq_generic_per_group (s : S) (hd : IsDw s) :
@@ -435,7 +435,71 @@ theorem ops_bit_dw_eq_generic_per_group (s : S) (hd : IsDw s) :
   obtain ⟨e1, e2⟩ := perGroup_channels hd
   rw [opsBitConv1dDw_eq, opsBitConv1d_eq, opsBitConv2dDw_eq, opsBitConv2d_eq]
   simp only [opsBitConv1d, opsBitConv1dDw, opsBitConv2d, opsBitConv2dDw, paramsBitConv1d, paramsBitConv1dDw, paramsBitConv2d, paramsBitConv2dDw, e1, e2, k_perGroup, o_perGroup, bias_perGroup,
-    perGroup_w, perGroup_ip, hd.1, hd.2.1]
+    perGroup_w, perGroup_ip, perGroup_g, hd.1, hd.2.1]
+  constructor <;> ring
+/-- `params`: a grouped convolution (any `groups ≠ 0`, channel multipliers included) costs `groups` ×
+the convolution one group performs (1-D and 2-D) -/
+theorem params_grouped_eq_per_group (s : S) (hg : s.groups ≠ 0) :
+    Gen.params._params_conv1d_generic.val s = s.groups * Gen.params._params_conv1d_generic.val (perGroup s) ∧
+    Gen.params._params_conv2d_generic.val s = s.groups * Gen.params._params_conv2d_generic.val (perGroup s) := by
+  rw [paramsConv1d_eq, paramsConv1d_eq, paramsConv2d_eq, paramsConv2d_eq]
+  simp only [paramsConv1d, paramsConv2d, paramsConv1dDw, paramsConv2dDw, k_perGroup, o_perGroup, bias_perGroup, perGroup_g, perGroup_ic, perGroup_oc]
+  constructor <;> field_simp
+/-- `params`: on a depthwise description the generic formula and the depthwise formula agree, so the
+cost does not depend on which of the two patterns the layer is dispatched to -/
+theorem params_generic_eq_dw_on_depthwise (s : S) (hd : IsDw s) :
+    Gen.params._params_conv1d_generic.val s = Gen.params._params_conv1d_dw.val s ∧ Gen.params._params_conv2d_generic.val s = Gen.params._params_conv2d_dw.val s := by
+  obtain ⟨h1, h2, h3⟩ := hd
+  rw [paramsConv1d_eq, paramsConv1dDw_eq, paramsConv2d_eq, paramsConv2dDw_eq]
+  simp only [paramsConv1d, paramsConv2d, paramsConv1dDw, paramsConv2dDw, h1, h2, div_self h3]
+  constructor <;> ring
+/-- `params_no_bias`: a grouped convolution (any `groups ≠ 0`, channel multipliers included) costs `groups` ×
+the convolution one group performs (1-D and 2-D) -/
+theorem params_no_bias_grouped_eq_per_group (s : S) (hg : s.groups ≠ 0) :
+    Gen.params_no_bias._params_conv1d_generic.val s = s.groups * Gen.params_no_bias._params_conv1d_generic.val (perGroup s) ∧
+    Gen.params_no_bias._params_conv2d_generic.val s = s.groups * Gen.params_no_bias._params_conv2d_generic.val (perGroup s) := by
+  rw [paramsNbConv1d_eq, paramsNbConv1d_eq, paramsNbConv2d_eq, paramsNbConv2d_eq]
+  simp only [paramsNbConv1d, paramsNbConv2d, paramsNbConv1dDw, paramsNbConv2dDw, k_perGroup, o_perGroup, bias_perGroup, perGroup_g, perGroup_ic, perGroup_oc]
+  constructor <;> field_simp
+/-- `params_no_bias`: on a depthwise description the generic formula and the depthwise formula agree, so the
+cost does not depend on which of the two patterns the layer is dispatched to -/
+theorem params_no_bias_generic_eq_dw_on_depthwise (s : S) (hd : IsDw s) :
+    Gen.params_no_bias._params_conv1d_generic.val s = Gen.params_no_bias._params_conv1d_dw.val s ∧ Gen.params_no_bias._params_conv2d_generic.val s = Gen.params_no_bias._params_conv2d_dw.val s := by
+  obtain ⟨h1, h2, h3⟩ := hd
+  rw [paramsNbConv1d_eq, paramsNbConv1dDw_eq, paramsNbConv2d_eq, paramsNbConv2dDw_eq]
+  simp only [paramsNbConv1d, paramsNbConv2d, paramsNbConv1dDw, paramsNbConv2dDw, h1, h2, div_self h3]
+  constructor <;> ring
+/-- `ops`: a grouped convolution (any `groups ≠ 0`, channel multipliers included) costs `groups` ×
+the convolution one group performs (1-D and 2-D) -/
+theorem ops_grouped_eq_per_group (s : S) (hg : s.groups ≠ 0) :
+    Gen.ops._ops_conv1d_generic.val s = s.groups * Gen.ops._ops_conv1d_generic.val (perGroup s) ∧
+    Gen.ops._ops_conv2d_generic.val s = s.groups * Gen.ops._ops_conv2d_generic.val (perGroup s) := by
+  rw [opsConv1d_eq, opsConv1d_eq, opsConv2d_eq, opsConv2d_eq]
+  simp only [opsConv1d, opsConv2d, opsConv1dDw, opsConv2dDw, paramsConv1d, paramsConv2d, paramsConv1dDw, paramsConv2dDw, k_perGroup, o_perGroup, bias_perGroup, perGroup_g, perGroup_ic, perGroup_oc]
+  constructor <;> field_simp
+/-- `ops`: on a depthwise description the generic formula and the depthwise formula agree, so the
+cost does not depend on which of the two patterns the layer is dispatched to -/
+theorem ops_generic_eq_dw_on_depthwise (s : S) (hd : IsDw s) :
+    Gen.ops._ops_conv1d_generic.val s = Gen.ops._ops_conv1d_dw.val s ∧ Gen.ops._ops_conv2d_generic.val s = Gen.ops._ops_conv2d_dw.val s := by
+  obtain ⟨h1, h2, h3⟩ := hd
+  rw [opsConv1d_eq, opsConv1dDw_eq, opsConv2d_eq, opsConv2dDw_eq]
+  simp only [opsConv1d, opsConv2d, opsConv1dDw, opsConv2dDw, paramsConv1d, paramsConv2d, paramsConv1dDw, paramsConv2dDw, h1, h2, div_self h3]
+  constructor <;> ring
+/-- `ops_no_bias`: a grouped convolution (any `groups ≠ 0`, channel multipliers included) costs `groups` ×
+the convolution one group performs (1-D and 2-D) -/
+theorem ops_no_bias_grouped_eq_per_group (s : S) (hg : s.groups ≠ 0) :
+    Gen.ops_no_bias._ops_conv1d_generic.val s = s.groups * Gen.ops_no_bias._ops_conv1d_generic.val (perGroup s) ∧
+    Gen.ops_no_bias._ops_conv2d_generic.val s = s.groups * Gen.ops_no_bias._ops_conv2d_generic.val (perGroup s) := by
+  rw [opsNbConv1d_eq, opsNbConv1d_eq, opsNbConv2d_eq, opsNbConv2d_eq]
+  simp only [opsNbConv1d, opsNbConv2d, opsNbConv1dDw, opsNbConv2dDw, paramsNbConv1d, paramsNbConv2d, paramsNbConv1dDw, paramsNbConv2dDw, k_perGroup, o_perGroup, bias_perGroup, perGroup_g, perGroup_ic, perGroup_oc]
+  constructor <;> field_simp
+/-- `ops_no_bias`: on a depthwise description the generic formula and the depthwise formula agree, so the
+cost does not depend on which of the two patterns the layer is dispatched to -/
+theorem ops_no_bias_generic_eq_dw_on_depthwise (s : S) (hd : IsDw s) :
+    Gen.ops_no_bias._ops_conv1d_generic.val s = Gen.ops_no_bias._ops_conv1d_dw.val s ∧ Gen.ops_no_bias._ops_conv2d_generic.val s = Gen.ops_no_bias._ops_conv2d_dw.val s := by
+  obtain ⟨h1, h2, h3⟩ := hd
+  rw [opsNbConv1d_eq, opsNbConv1dDw_eq, opsNbConv2d_eq, opsNbConv2dDw_eq]
+  simp only [opsNbConv1d, opsNbConv2d, opsNbConv1dDw, opsNbConv2dDw, paramsNbConv1d, paramsNbConv2d, paramsNbConv1dDw, paramsNbConv2dDw, h1, h2, div_self h3]
   constructor <;> ring
 
 /-! ## 5. Tables and tiles -/
@@ -496,6 +560,18 @@ example : Valid sample ∧ NonEmpty sample ∧ WF "Conv2d" sample := by
 example : Gen.ne16_latency._ne16_latency_conv2d_generic.ok sample = true ∧
     Gen.gap8_latency._gap8_latency_conv2d_generic.val sample = 3930 ∧
     Gen.diana_latency._diana_latency_conv2d_generic.val sample = 2997 / 8 := by
+  decide +kernel
+/-- a grouped convolution with channel multiplier, `Conv1d(4, 8, 3, groups = 4)` without bias: accepted
+(`groups ≠ 0`, the guard `WF` now carries), charged `8 · (4/4) · 3 = 24` parameters, `IsDw` does not
+hold, and it equals 4 × the one-group convolution `Conv1d(1, 2, 3)` -/
+example :
+    let g : S := { sample with in_channels := 4, out_channels := 8, groups := 4, kernel_size := [3],
+                               output_shape := [1, 8, 9], hasBias := false }
+    Gen.params._params_conv1d_generic.ok g = true ∧ Gen.params._params_conv1d_generic.val g = 24 ∧
+    Gen.params._params_conv1d_generic.val (perGroup g) = 6 ∧ g.groups ≠ 0 ∧ g.out_channels ≠ g.groups := by
+  decide +kernel
+/-- with `groups = 0` the size / operation counts are not numbers (division by zero): the guard is needed -/
+example : Gen.params._params_conv1d_generic.ok { sample with groups := 0, kernel_size := [3] } = false := by
   decide +kernel
 /-- a strictly larger layer: premises of the monotonicity theorems hold with strict growth -/
 example : SizeLe sample { sample with out_channels := 33, kernel_size := [3, 5] } := by
